@@ -1831,8 +1831,10 @@ func scTCPExecBPop(addr string, n *nodis.Nodis, rounds int) string {
 			return "FAIL dial"
 		}
 		popped := make(chan []tok, 1)
+		// every blocking form: both ends, a finite timeout, "wait for ever" (0) and a fraction
+		form := [][]string{{"BLPOP", key, "5"}, {"BLPOP", key, "0"}, {"BRPOP", key, "0"}, {"BRPOP", "bq-nothing", key, "2.5"}}[round%4]
 		go func() {
-			g, _ := b.do("BLPOP", key, "5")
+			g, _ := b.do(form...)
 			popped <- g
 		}()
 		// wait until the waiter is registered (it shows as a blocked client: no reply yet)
@@ -1995,3 +1997,77 @@ func scSelfMove(n *nodis.Nodis, r *rand.Rand, rounds int) string {
 }
 
 func init() { scenarios["self-move"] = scSelfMove }
+
+// ---- blocking pops queued in MULTI (C06) -----------------------------------------------------------
+
+// EXEC is exclusive, so a blocking pop that really waited inside it would wait for ever (nobody else can
+// push) and would stall every other client: every blocking form queued in MULTI must return at once,
+// whether its keys hold elements or not, and the server must go on serving the others.
+func scTCPMultiBPop(addr string, n *nodis.Nodis, rounds int) string {
+	tick := func() { atomic.AddUint64(&progress, 1) }
+	forms := [][]string{
+		{"BLPOP", "mbq", "0"}, {"BRPOP", "mbq", "0"}, {"BLPOP", "mb-empty", "0"}, {"BRPOP", "mb-empty", "0"},
+		{"BLPOP", "mb-empty", "mbq", "1"}, {"BRPOP", "mb-empty", "mbq", "1"}, {"BLPOP", "mb-empty", "0.4"}, {"BRPOP", "mb-empty", "0.4"},
+		{"BRPOP", "mb-empty", "mb-empty2", "30"}, {"BLPOP", "mb-empty", "mb-empty2", "30"},
+	}
+	for round := 0; round < rounds; round++ {
+		a, err := dial(addr)
+		if err != nil {
+			return "FAIL dial"
+		}
+		o, err := dial(addr)
+		if err != nil {
+			return "FAIL dial"
+		}
+		for fi := range forms {
+			// one form alone, then (last iteration) all of them in one transaction
+			sel := [][]string{forms[fi]}
+			if fi == len(forms)-1 {
+				sel = forms
+			}
+			a.do("DEL", "mbq")
+			a.do("RPUSH", "mbq", "1", "2", "3", "4", "5", "6", "7", "8")
+			a.do("MULTI")
+			for _, f := range sel {
+				a.do(f...)
+			}
+			t0 := time.Now()
+			done := make(chan string, 1)
+			go func() {
+				e, err := a.do("EXEC")
+				if err != nil {
+					done <- "EXEC: " + err.Error()
+					return
+				}
+				// one array header + per form either a null array (1 token) or [key, element] (3 tokens)
+				if len(e) < 1+len(sel) || e[0].kind != '*' || e[0].n != int64(len(sel)) {
+					done <- fmt.Sprintf("EXEC replied %v for %d queued blocking pops", e, len(sel))
+					return
+				}
+				done <- ""
+			}()
+			select {
+			case msg := <-done:
+				if msg != "" {
+					return fmt.Sprintf("FAIL MULTI; %v; EXEC: %s (round %d)", sel, msg, round)
+				}
+			case <-time.After(4 * time.Second):
+				return fmt.Sprintf("FAIL MULTI; %v; EXEC did not reply within 4 s: a blocking pop queued in a transaction waited inside EXEC, which is exclusive - the server is stalled (round %d)", sel, round)
+			}
+			if d := time.Since(t0); d > time.Second {
+				return fmt.Sprintf("FAIL MULTI; %v; EXEC took %v", sel, d)
+			}
+			// the others are still served
+			g, err := o.do("PING")
+			if err != nil || len(g) != 1 {
+				return fmt.Sprintf("FAIL PING on another connection after the transaction: %v %v", g, err)
+			}
+			tick()
+		}
+		a.c.Close()
+		o.c.Close()
+	}
+	return fmt.Sprintf("ok rounds=%d forms=%d", rounds, len(forms))
+}
+
+func init() { scenarios["tcp-multi-bpop"] = tcpScenario(scTCPMultiBPop) }
